@@ -126,7 +126,8 @@ def run_cases(ck, res, n_cases, n_interval):
                     break
         if len(goals) < n_interval and n <= 3 and ir.size(ir.expand(terms[0])) < 400:
             venv = {l: pts[l][0] for l in leaves}
-            goals.append(enga.interval_goal(f'{name}#{ci}', terms[0], venv, {}, probes, out[0][0], scale))
+            goals.append(enga.interval_goal(f'{name}#{ci}', terms[0], venv, {}, probes, out[0][0], scale,
+                                            gen=('Gen_C08', name, 'term_0' if res[name]['multi'] else 'term'), names=res[name]['names']))
     # ---- rejected call shapes
     for args, label in ((0, 'empty'), (3, 'odd')):
         ck.add_case(('div-reject', label))
